@@ -118,6 +118,15 @@ CHECKS = {
             "edits; structure nodes re-run iff the visible (path,type) set changed.",
             "chmod-only and same-size-same-mtime rewrites are not observable by stat (C13) and are don't-care; symlinks in "
             "generated trees are dangling (llbuild stats through links).", "DESIGN 2/C12"),
+    "C17": ("exploration", "hypothesis+ninjadump+ninja",
+            "grammar-based differential PBT: generated manifests loaded by llbuild vs a Python evaluator of Ninja's rules that is itself cross-validated against the installed ninja on every case; shell-quoting round trip through /bin/sh",
+            "No counter-example among generated manifests (scoping, lazy rule variables, escapes, continuations, include/"
+            "subninja trees, keyword-like identifiers, non-ASCII bytes): every field of every loaded build statement "
+            "equals the evaluator's, which agrees with `ninja -t compdb` on the command of every edge; shellEscaped(p) "
+            "round-trips through /bin/sh for generated byte strings.",
+            "Only manifests ninja 1.11 accepts and on which the evaluator agrees with ninja are judged (others counted); "
+            "LF line endings; a build's own bindings are not referenced from its own path list; no `default` statements.",
+            "DESIGN 2/C17"),
 }
 
 NOT_APPLICABLE = {
@@ -160,6 +169,8 @@ def main():
             "add_only": True,
         },
         "engines": [
+            {"name": "hypothesis+ninjadump+ninja", "path": "pbt/c17.py + harness/ninjadump.cpp", "serves_properties": ["C17"],
+             "kind_free_text": "Hypothesis grammar generator; llbuild side = hex dump of the loaded ninja::Manifest; reference = Python evaluator cross-checked against /usr/bin/ninja 1.11"},
             {"name": "hypothesis+bsx", "path": "pbt/bs_model.py + harness/bsx.cpp + harness/vtool.c",
              "serves_properties": [p for p in sorted(CHECKS) if "bsx" in CHECKS[p][1]],
              "kind_free_text": "Hypothesis generating build descriptions and edit histories; bsx = BuildSystemFrontend front end (target or single node, recording FS); vtool = deterministic command with logical clock and fault injection; oracle = Python description evaluator"},
